@@ -108,7 +108,7 @@ def run(ctx):
     ctx.rule = ("random type-directed programs over tensordot/@/ncon/einsum/fuse/unfuse/transpose/add/trace/svd/qr (+ diag, broadcast, mask, legs) "
                 "executed in lockstep under: primary config, the 2 other tensordot policies, materialise-after-each-step, copy-after-each-step, other "
                 "default fusion mode; after EVERY step all runs are compared pairwise with the primary (charge, legs, dense values; exact for integer data) "
-                "and the primary with the Lean model; contract_with_unroll vs plain contraction; non-trivial = some result with >=2 blocks")
+                "and the primary with the Lean model; contract_with_unroll vs plain contraction; non-trivial = some result with >=2 blocks; plus ill-defined contractions/traces (must be rejected under every policy), unrolled output indices in product symmetries, and view relations R1-R4, R7 (pending vs consumed operand, same arguments)")
     budget = 55 if ctx.quick else 700
     for it in range(nprog):
         if ctx.elapsed() > budget:
